@@ -20,6 +20,10 @@ Property clause → theorem
 * "an order that is not in its placement batch can always be cancelled by its owner"
       → `cancellable_after_batch` (hypothesis: the match results of THAT pair lost nothing, `lostOf a p ops = 0`),
         `lostOf_zero_of_modelled` (proved for lossless runs of C05's modelled matcher), `cancellable_after_batch_of_conserving`
+* "every way of ending (… cancel-all …)" + "can always be cancelled by its owner", for `MsgCancelAllOrders`
+      → `cancel_all_cancels_every_old_order` (every live order of the owner in the named pairs — all pairs of the app if none is
+        named — that is not in its placement batch is ended, in EVERY pair and whatever the order of pair ids; orders still in
+        their placement batch are left exactly as they were)
 * "cancelling or replacing market-making orders cancels and refunds every previously placed market-making order of that
   owner in that pair — for every combination of app id and pair id"
       → `mm_cancel_cancels_all`, `mm_replace_cancels_all` (repaired lookup, all app / pair ids),
@@ -147,6 +151,19 @@ theorem lostOf_zero_of_modelled (a p : Nat) (ops : List Op)
   obtain ⟨b, b', lp, mp, q, hr, hq, hl, he⟩ := hm a' ms ds ws hop m hmm
   rw [he]; exact LiqBridge.modelled_conserving hr hq hl m.pair
 
+/-- **`MsgCancelAllOrders` cancels every old order it addresses and nothing else of the owner's**: after a successful
+cancel-all, for every order `o` stored under a key `k`: if `o` belongs to the sender, lies in the message's app and in one of
+the named pairs (any pair when the list is empty), is live and was placed in an earlier batch of its pair, then the order under
+`k` is ended (and refunded: `finish_moves_exactly`, `terminated_settled`); if `o` is still in its placement batch it is
+untouched.  No assumption on pair ids or on the position of the order in any index. -/
+theorem cancel_all_cancels_every_old_order {cfg : Cfg} {s s' : State} {app user : Nat} {pairs : List Nat}
+    (h : step cfg s (.cancelAll app user pairs) = some s') (k : OKey) (o : Order) (pp : Pair)
+    (ho : s.order? k = some o) (hp : s.pair? app o.pair = some pp) :
+    (o.app = app ∧ o.owner = user ∧ (pairs = [] ∨ o.pair ∈ pairs) → o.status.live = true → o.batch < pp.curBatch →
+      ∀ o', s'.order? k = some o' → o'.status.live = false) ∧
+    (¬ o.batch < pp.curBatch → s'.order? k = some o) :=
+  cancelAll_all h k o pp ho hp
+
 /-- **MsgCancelMMOrder cancels every indexed order** (repaired lookup), for every app id and pair id: after a successful
 cancel, every order listed in the owner's market-making index of that pair is ended, and the index is gone.  (Each of
 them was refunded: `finish_moves_exactly`, `terminated_settled`.) -/
@@ -237,6 +254,21 @@ example :
     (s.orders.filter (fun o => o.app == 2 && o.pair == 1)).map (fun o => (o.id, o.status)) = [(1, .canceled), (2, .canceled)] ∧
     (s.orders.filter (fun o => o.app == 1 && o.pair == 2)).map (fun o => (o.id, o.owner, o.status)) = [(1, 2, .notMatched)] := by
   decide
+
+/-- two pairs of one app; user 1 has an older sell order in pair 2 and a fresh one in pair 1; cancel-all (no pair named) ends
+the older one although a current-batch order of a LOWER pair id comes first in the owner's index -/
+def opsCancelAll : List Op :=
+  [ .block 1 100,
+    .createPair 1 0 (.coin 1) (.coin 2) true,
+    .createPair 1 0 (.coin 2) (.coin 3) true,
+    .order 1 1 2 .limit false 2000000 1000000000000000000 1000000000000000000 1000000 3600 true,
+    .endBlock 1 [] [] [],
+    .block 2 105,
+    .order 1 1 1 .limit false 2000000 1000000000000000000 1000000000000000000 1000000 3600 true,
+    .cancelAll 1 1 [] ]
+
+example : ((after (cfgD4 false) fundsD4 opsCancelAll).orders.map fun o => (o.pair, o.id, o.status)) =
+    [(2, 1, .canceled), (1, 1, .notExecuted)] := by decide
 
 /-! ### Non-vacuity -/
 
